@@ -5,7 +5,7 @@
    model's observation satisfies the monitor: Ok iff every leaf is free (try_lock) / not write-held
    (try_read) — independently of kind, arrangement and nesting —, a refusal leaves the hold table as it
    was, success holds every leaf and dropping the guard restores the table. *)
-From HL Require Import Base Model Shape Algo Api Lemmas ShapeLemmas Check Monitors Pf_C13 Pf_Hist Pf_Hist4.
+From HL Require Import Base Model Shape Algo Api Lemmas ShapeLemmas Check Monitors Pf_C13 Pf_Hist Pf_Hist4 Pf_Hist13.
 
 Theorem C13_try_exact :
   forall sc c m s t, wf_C13 sc c m s t -> mon_C13 sc (model_obs sc) = true.
@@ -55,5 +55,26 @@ Example C13_scoped_nonvacuous :
   wf_histb ex13s' && wf4b ex13s' = true /\ map co_ret (model_obs ex13s') = [RB true; RWouldBlock].
 Proof. vm_compute. repeat split. Qed.
 
+(* the same at EVERY non-blocking acquisition of EVERY fault-free history (any number of threads, any calls before it:
+   guards taken, dropped, forgotten, panics, poisoned wrappers, Debug formatting, ...): histories are API-call-atomic, so
+   each call runs with no concurrent activity; a try / scoped try is refused exactly when some leaf of its root is
+   unavailable in the hold table the previous call left *)
+Theorem C13_every_history :
+  forall sc, wf_histb sc && wf4b sc = true -> mon_C13h sc (model_obs sc) = true.
+Proof. exact C13_all_histories_dec. Qed.
+Check C13_every_history : forall sc, wf_histb sc && wf4b sc = true -> mon_C13h sc (model_obs sc) = true.
+
+(* non-vacuity: thread 0 takes a guard on a nested collection, formats it, panics with the guard alive; thread 1 then
+   tries a lock next to a leaf that is still read-held by somebody else, and one that is free *)
+Definition ex13h : scen :=
+  mks 3 1 [2; 0; 1] [] [ex13_shape; SLeaf KRw 2; SLeaf KRw 0] [(2, mkraw None [100])] [] [] 4
+      [(0, AKeyGet); (0, AAcquire 0 Sh FTry); (0, AFmt 0); (0, APanic);
+       (1, AKeyGet); (1, AAcquire 1 Ex FTry); (1, AGuardDrop); (1, AAcquire 2 Ex (FScopedTry true [CWrite 0]))].
+Example C13_every_history_nonvacuous :
+  wf_histb ex13h && wf4b ex13h = true /\
+  map co_ret (model_obs ex13h) = [RB true; ROk; RN 0; RPanicked; RB true; RWouldBlock; RSkipped; ROk].
+Proof. vm_compute. split; reflexivity. Qed.
+
 Print Assumptions C13_try_exact.
+Print Assumptions C13_every_history.
 Print Assumptions C13_scoped_try_exact.
